@@ -65,7 +65,70 @@ static void* fib(void* p) {
   }
   return NULL;
 }
+/* ---- a long line of real waiters: "for any number of contenders" ----
+ * The main fiber holds the mutex. The first contender is descheduled (directed stall) between announcing
+ * itself and linking its node into the wait queue, then rc_n more contenders queue up behind it - as long as
+ * the first one has not linked its node, none of them can be reached from the head of the queue. The main
+ * fiber unlocks while the line looks empty: the hand-off has to wait for the slow contender, and everybody
+ * must get the mutex once. */
+#define RC_MAX 320
+static long rc_counter;
+static int rc_n, rc_nth, rc_steps, rc_inside;
+static NS void rc_progress(void) { sim_progress(); }
+static NS void rc_enter(int who) {
+  if (rc_inside) sim_violation("C03-two-owners", "long line of waiters: contender %d is inside the critical section together with another fiber", who);
+  rc_inside = 1;
+}
+static NS void rc_leave(void) { rc_inside = 0; }
+static void* rc_locker(void* p) {
+  const int who = (int)(intptr_t)p;
+  rc_progress();
+  if (who == 0) sim_stall_after_rmw(rc_nth, rc_steps);
+  fiber_mutex_lock(&mtx[0]);
+  if (who == 0) sim_stall_after_rmw(0, 0);
+  rc_enter(who);
+  rc_counter++;
+  rc_leave();
+  fiber_mutex_unlock(&mtx[0]);
+  rc_progress();
+  return NULL;
+}
+static void run_long_line(void) {
+  sim_cfg_t c = sim_config(2, 3, 0, FBIT(F_STALL));
+  rc_n = wl_pct(70) ? wl_int(124, 134) : wl_int(3, RC_MAX - 1);
+  rc_nth = wl_int(1, 2);
+  rc_steps = wl_int(1, 8) * 40000;
+  sim_scenario("long-line-of-waiters");
+  sim_describe("threads=%d a slow first contender (descheduled for %d steps after its %d. atomic read-modify-write) and %d more behind it; the holder unlocks while the line cannot be walked", c.threads,
+               rc_steps, rc_nth, rc_n);
+  sim_nontrivial();
+  sim_fiber_mode();
+  fiber_manager_init(c.threads);
+  mtx = h_dirty_alloc(2 * sizeof *mtx);
+  fiber_mutex_init(&mtx[0]);
+  static fiber_t* f[RC_MAX + 1];
+  fiber_mutex_lock(&mtx[0]);
+  rc_enter(-1);
+  f[0] = fiber_create(STK, rc_locker, (void*)(intptr_t)0);
+  for (int k = 0; k < 400 && atomic_load(&mtx[0].counter) >= 0; k++) fiber_yield(); /* the slow one has announced itself */
+  for (int i = 1; i <= rc_n; i++) f[i] = fiber_create(32768, rc_locker, (void*)(intptr_t)i);
+  for (int k = 0; k < 30 * rc_n + 400 && atomic_load(&mtx[0].counter) > -(rc_n + 1); k++) fiber_yield(); /* ... and so has everybody else */
+  if (atomic_load(&mtx[0].counter) <= -128) sim_probe("unlock_with_128_or_more_waiters", 1);
+  rc_counter++;
+  rc_leave();
+  fiber_mutex_unlock(&mtx[0]);
+  for (int i = 0; i <= rc_n; i++) fiber_join(f[i], NULL);
+  if (rc_counter != rc_n + 2) sim_violation("C03-lost-update", "long line of waiters: %d critical sections ran but the counter they increment reads %ld", rc_n + 2, rc_counter);
+  if (mtx[0].counter != 1) sim_violation("C03-state-at-rest", "long line of waiters: counter %d after all fibers finished (1 = free)", (int)mtx[0].counter);
+  fiber_mutex_destroy(&mtx[0]);
+  free(mtx);
+  h_fiber_end();
+}
 void h_run(void) {
+  if (wl_pct(3)) {
+    run_long_line();
+    return;
+  }
   if (wl_pct(15)) { /* the unlock that fiber_cond_wait defers to the next fiber of the thread */
     h_deferred_unlock_scenario("C03-state-at-rest");
     return;
